@@ -168,6 +168,14 @@ func (g *vcgen) lin(v ssa.Value) string {
 			if isInt, _, _ := intInfo(x.Type()); isInt && !(uns && bits < 64) {
 				return "(" + g.lin(x.X) + " + " + g.lin(x.Y) + ")"
 			}
+			if isInt, _, _ := intInfo(x.Type()); isInt && uns && bits < 64 {
+				// … but a sum that stays below 2^bits is the sum: two cases
+				a := g.atom(v)
+				X, Y := g.lin(x.X), g.lin(x.Y)
+				p := fmt.Sprintf("%d", uint64(1)<<uint(bits))
+				g.hyp("(" + X + " + " + Y + " < " + p + " ∧ " + a + " = " + X + " + " + Y + ") ∨ (" + X + " + " + Y + " ≥ " + p + " ∧ " + a + " = " + X + " + " + Y + " - " + p + ")")
+				return a
+			}
 		case token.SUB:
 			if isInt, _, _ := intInfo(x.Type()); isInt && !uns {
 				return "(" + g.lin(x.X) + " - " + g.lin(x.Y) + ")"
@@ -189,6 +197,19 @@ func (g *vcgen) lin(v ssa.Value) string {
 			}
 			if c, ok := constInt(x.X); ok && !uns {
 				return "(" + lit(c) + " * " + g.lin(x.Y) + ")"
+			}
+			// unsigned product by a constant: the product itself while it fits the type, some value of the type otherwise
+			for _, pr := range [][2]ssa.Value{{x.X, x.Y}, {x.Y, x.X}} {
+				if c, ok := constInt(pr[1]); ok && uns && c >= 0 && bits <= 64 {
+					a := g.atom(v)
+					X := "(" + lit(c) + " * " + g.lin(pr[0]) + ")"
+					p := "18446744073709551616"
+					if bits < 64 {
+						p = fmt.Sprintf("%d", uint64(1)<<uint(bits))
+					}
+					g.hyp("(" + X + " < " + p + " ∧ " + a + " = " + X + ") ∨ (" + X + " ≥ " + p + " ∧ 0 ≤ " + a + ")")
+					return a
+				}
 			}
 		case token.AND:
 			a := g.atom(v)
@@ -286,6 +307,16 @@ func (g *vcgen) lin(v ssa.Value) string {
 			g.hyp(a + " ≤ " + g.lenOf(x.Call.Args[1]))
 			return a
 		}
+		// strings.IndexByte / Index / LastIndex… and the bytes equivalents: -1, or a position inside the first argument
+		if f := x.Call.StaticCallee(); f != nil && f.Pkg != nil && (f.Pkg.Pkg.Path() == "strings" || f.Pkg.Pkg.Path() == "bytes") && len(x.Call.Args) >= 2 {
+			switch f.Name() {
+			case "IndexByte", "Index", "IndexRune", "IndexAny", "LastIndex", "LastIndexByte", "LastIndexAny", "IndexFunc", "LastIndexFunc":
+				a := g.atom(v)
+				g.hyp("(-1) ≤ " + a)
+				g.hyp(a + " < " + g.lenOf(x.Call.Args[0]) + " ∨ " + a + " = (-1)")
+				return a
+			}
+		}
 		if f := x.Call.StaticCallee(); f != nil && f.Pkg != nil && (f.Pkg.Pkg.Path() == "crypto/subtle" || f.Pkg.Pkg.Path() == "crypto/internal/fips140/subtle") {
 			switch f.Name() {
 			case "ConstantTimeCompare", "ConstantTimeEq", "ConstantTimeByteEq", "ConstantTimeLessOrEq":
@@ -322,7 +353,30 @@ func (g *vcgen) lin(v ssa.Value) string {
 		// i = phi(init, i + c, …): monotone loop variable
 		var inits []ssa.Value
 		up, down, other := false, false, false
+		var edges []ssa.Value
 		for _, e := range x.Edges {
+			// a conditional step inside the loop body reaches the loop head as a phi of (i, i±c): look through it
+			if p2, ok := e.(*ssa.Phi); ok && p2 != x && len(p2.Edges) <= 4 {
+				through := true
+				for _, e2 := range p2.Edges {
+					if e2 == ssa.Value(x) {
+						continue
+					}
+					if bo, ok := e2.(*ssa.BinOp); ok && (bo.Op == token.ADD || bo.Op == token.SUB) && bo.X == ssa.Value(x) {
+						if _, isC := constInt(bo.Y); isC {
+							continue
+						}
+					}
+					through = false
+				}
+				if through {
+					edges = append(edges, p2.Edges...)
+					continue
+				}
+			}
+			edges = append(edges, e)
+		}
+		for _, e := range edges {
 			if bo, ok := e.(*ssa.BinOp); ok && (bo.Op == token.ADD || bo.Op == token.SUB) && bo.X == ssa.Value(x) {
 				if c, ok := constInt(bo.Y); ok {
 					if (bo.Op == token.ADD) == (c > 0) && c != 0 {
